@@ -581,6 +581,25 @@ func c06(p *core.Program, r *core.Report) {
 		}
 		// (b) the layout-stack assertions
 		// the empty-stack assertion wherever it sits: a panic reached only where len(<stack>.data) == 0 holds
+		emptyStackShape := func(blk *ssa.BasicBlock) bool {
+			for _, e := range mustEdgesTo(fn, blk) {
+				c, okc := eng.EdgeCmp(fn.Blocks[e[0]], e[1])
+				if !okc {
+					continue
+				}
+				lc, isLen := eng.StripConv(c.X).(*ssa.Call)
+				if !isLen || eng.BuiltinName(lc) != "len" {
+					continue
+				}
+				if _, path, isF := fieldLoad(lc.Call.Args[0]); !isF || !strings.HasSuffix(path, ".data") {
+					continue
+				}
+				if k, isK := eng.ConstInt(c.Y); isK && (c.Op == token.EQL && k == 0 || c.Op == token.LSS && k == 1 || c.Op == token.LEQ && k == 0) {
+					return true
+				}
+			}
+			return false
+		}
 		if allPrem {
 			for _, e := range mustEdgesTo(fn, blk) {
 				c, okc := eng.EdgeCmp(fn.Blocks[e[0]], e[1])
@@ -599,9 +618,19 @@ func c06(p *core.Program, r *core.Report) {
 				}
 			}
 		}
-		switch fn.Name() {
-		case "validateNonEmptyGeometryAllowed", "validateBaseGeometryTypeAllowed", "validateAndPopLayoutStackFrame", "setTopLayout", "setTopNextPointMustBeEmpty", "pop", "assertNotEmpty", "assertNoGeometryCollectionFramesLeft":
-			if allPrem {
+		// by function, for at most the number of assertions confirmed by hand in each: the premises speak about
+		// those assertions and about nothing else that may be added to the same function later
+		confirmed := map[string]int{"validateNonEmptyGeometryAllowed": 1, "validateBaseGeometryTypeAllowed": 1, "validateAndPopLayoutStackFrame": 1, "setTopLayout": 2, "setTopNextPointMustBeEmpty": 1, "pop": 1, "assertNotEmpty": 1, "assertNoGeometryCollectionFramesLeft": 1}
+		if max, ok := confirmed[fn.Name()]; ok && allPrem {
+			npanic := 0
+			for _, b := range fn.Blocks {
+				for _, in := range b.Instrs {
+					if _, isP := in.(*ssa.Panic); isP && !(fn.Name() != "assertNotEmpty" && emptyStackShape(b)) {
+						npanic++ // the empty-stack assertion inlined into another function is discharged by its shape
+					}
+				}
+			}
+			if npanic <= max {
 				return true, glue
 			}
 		}
